@@ -362,6 +362,8 @@ def universe(tier, rng):
                 for a in cops:
                     if v in ("|",) and isinstance(a, int):
                         continue
+                    if v in (A1 if VERB_ARITY[first] == 1 else A2) and not is_num(a):
+                        continue          # arithmetic on strings is outside the verbs' domain (and can explode)
                     add({"adv": first, "verb": v, "a": a, "chain": [second]}, core=(a == cops[0] or a == cops[2]))
     for v in ("+", ",", "Lnc"):
         for a in cops[:3]:
